@@ -362,3 +362,58 @@ impl Drop for World {
         edp_client::verif::uninstall();
     }
 }
+
+/// Consumes the calling task's cooperative budget (128 units per poll) down to `leave` units, so
+/// that the (leave+1)-th tokio resource operation of whatever the task does next returns Pending
+/// and the task yields there. Call it in the same poll as the operation under test (right after a
+/// gate): this is how an execution preempts a task at an await that has no gate hook.
+pub async fn burn_budget(leave: usize) {
+    std::future::poll_fn(|cx| {
+        for _ in 0..128usize.saturating_sub(leave) {
+            match tokio::task::coop::poll_proceed(cx) {
+                std::task::Poll::Ready(r) => r.made_progress(),
+                std::task::Poll::Pending => break,
+            }
+        }
+        std::task::Poll::Ready(())
+    })
+    .await
+}
+
+thread_local! {
+    /// (driver name, step number) -> units of cooperative budget to keep for that step
+    static BUDGETS: std::cell::RefCell<Vec<((String, usize), usize)>> = const { std::cell::RefCell::new(Vec::new()) };
+    static STEP_COUNTS: std::cell::RefCell<Vec<(String, usize)>> = const { std::cell::RefCell::new(Vec::new()) };
+}
+
+pub fn set_budgets(b: Vec<((String, usize), usize)>) {
+    BUDGETS.with(|x| *x.borrow_mut() = b);
+    STEP_COUNTS.with(|x| x.borrow_mut().clear());
+}
+
+/// Driver step: park at the harness gate `drv.step`, then keep only the budget chosen for this
+/// (driver, step) - if any - for the operation that follows in the same poll.
+pub async fn drv_step(driver: &str) {
+    edp_client::verif::point("drv.step").await;
+    let n = STEP_COUNTS.with(|c| {
+        let mut c = c.borrow_mut();
+        if let Some(e) = c.iter_mut().find(|e| e.0 == driver) { e.1 += 1; e.1 - 1 } else { c.push((driver.to_string(), 1)); 0 }
+    });
+    let b = BUDGETS.with(|x| x.borrow().iter().find(|e| e.0.0 == driver && e.0.1 == n).map(|e| e.1));
+    if let Some(b) = b {
+        burn_budget(b).await;
+    }
+}
+
+/// Decision points "how much budget does step n of driver d keep": default full, alternatives 0..max.
+pub fn choose_budgets(ch: &mut crate::explore::Chooser, steps: &[(&str, usize)], max: usize) {
+    let mut out = vec![];
+    for (d, count) in steps {
+        for n in 0..*count {
+            let opts: Vec<String> = std::iter::once(format!("budget[{}#{}]=full", d, n)).chain((0..max).map(|b| format!("budget[{}#{}]={}", d, n, b))).collect();
+            let c = ch.choose(&opts);
+            if c > 0 { out.push(((d.to_string(), n), c - 1)); }
+        }
+    }
+    set_budgets(out);
+}
